@@ -39,6 +39,7 @@ class Contract:
     interface: bool = False            # [A] interface contract on an abstract collaborator: used at call sites, never verified against a body
     assumptions: list = field(default_factory=list)  # [A] statements this contract rests on
     callee_variants: dict = field(default_factory=dict)  # callee qualname -> which of its contract variants this caller is checked against
+    lemmas: list = field(default_factory=list)        # named true facts the engine states explicitly while verifying THIS function ("append_nth": what xs.append(x) does to xs[i])
 
     @property
     def ident(self):
